@@ -101,7 +101,7 @@ def run(tier, replay=None):
             facts = os.path.join(d, "facts"); render.write_facts(c[2], {}, facts)
         r = dt.run_souffle(c[0], d, text=text, facts=facts, expect=c[3], args=("--no-preprocessor",))
         shutil.rmtree(d, ignore_errors=True)
-        r.stdout = ""; r.stderr = r.stderr[-3000:]
+        r.stdout = ""; r.stderr = r.stderr if len(r.stderr) <= 6000 else r.stderr[:2500] + "\n[...]\n" + r.stderr[-3000:]
         return r
     import concurrent.futures as cf
     with cf.ThreadPoolExecutor(NCPU) as ex:
